@@ -3,3 +3,6 @@ pub assume_specification [std::string::String::as_bytes] (_0: &std::string::Stri
 pub assume_specification<T> [<[T]>::to_vec] (s: &[T]) -> (r: std::vec::Vec<T>)
     where T: std::clone::Clone
     ensures r@ == s@;
+// R7: Vec<u8> == Vec<u8> is element-wise equality
+#[verifier::external_body]
+pub fn verif_vec_eq(a: &Vec<u8>, b: &Vec<u8>) -> (r: bool) ensures r == (a@ == b@) { unimplemented!() }
